@@ -465,6 +465,17 @@ func (g *Gen) globalObj(x *ssa.Global) string {
 	// global objects get fixed negative-free ids: 1000000 + index, all < nextobj0
 	o := g.eng.globalID(x)
 	g.globals[x] = o
+	// type safety: a pointer parameter of the global's own type that points into the global is the global
+	gelem := x.Type().Underlying().(*types.Pointer).Elem()
+	for _, pv := range g.params {
+		if pv.Tuple != nil || pv.T == nil {
+			continue
+		}
+		if pt, ok := pv.T.Underlying().(*types.Pointer); ok && types.Identical(pt.Elem(), gelem) && len(pv.S) == 2 {
+			g.keepLine()
+			g.assumeRaw(fmt.Sprintf("(=> (= %s %s) (= %s 0))", pv.S[0], o, pv.S[1]))
+		}
+	}
 	if x.Pkg != nil && strings.HasPrefix(x.Pkg.Pkg.Path(), repoMod) {
 		elem := x.Type().Underlying().(*types.Pointer).Elem()
 		func() {
